@@ -30,7 +30,7 @@ GEN_PREFIXES = ["opt"]
 THEOREMS = {
     "Proofs.C13": ["VerifModel.C13." + t for t in [
         "C13_range", "C13_range_default_step", "C13_commas", "C13_dates", "C13_dates_all", "C13_dates_descending",
-        "C13_rejects_date_range", "C13_rejects_malformed_scalar",
+        "C13_dates_beyond_calendar", "C13_no_traceback", "C13_rejects_date_range", "C13_rejects_malformed_scalar",
         "C13_order_irrelevant", "C13_config_inline", "C13_wiring", "C13_rejects_unknown_flag",
         "C13_rejects_missing_value", "C13_rejects_range_length", "C13_rejects_nonpositive_T",
         "C13_rejects_quantile", "C13_rejects_unknown_axis", "C13_rejects_unknown_aggregator",
@@ -59,8 +59,9 @@ ASSUMPTIONS = [
     "vector fields are decimal strings with at most 3 fractional digits (C13_range); outside that grid the 0.0001 "
     "end-point fudge of parse_numbers is visible (e.g. 0:1:0.99995) — documented by the code itself",
     "date ranges: both ends valid civil dates in 1900-2100, whole day steps (positive: d1 <= d2, ascending; "
-    "negative: d1 >= d2, descending; |step| small enough that one step beyond the range stays inside datetime's "
-    "years 1-9999); a reversed range with a positive step returns the ascending range (outside the documented "
+    "negative: d1 >= d2, descending; any |step| >= 1: when one step beyond the last value that is kept leaves "
+    "datetime's years 1-9999 the range is rejected with the error message, C13_dates_beyond_calendar, never a "
+    "traceback, C13_no_traceback); a reversed range with a positive step returns the ascending range (outside the documented "
     "grammar, mirrored by the model); a fractional date step and a first date that is not a calendar date are "
     "rejected (C13_rejects_date_range; the former hang is still probed in a subprocess with a 5 s timeout)",
     "order invariance is claimed for command lines in which no two option groups assign the same variable",
@@ -68,7 +69,7 @@ ASSUMPTIONS = [
 ]
 RULE = ("pn.grid: every start,end in {-3..3 step .5} u {.1,.25,.9} x step in +-{.1,.25,.5,1,2} as a:s:b, every a:b, "
         "plus comma mixtures; pn.dates: every month/year/leap boundary of 2011-2013, 1999-2000, 2099-2100 x offsets "
-        "x steps {default,1,2,7,30}, and the boundaries of 2012, 2000-03-01, 2100-03-01, 2013-01-01 counted down with steps {-1,-2,-7}; pn.malformed: fixed list of malformed strings; cli.parse: command lines drawn "
+        "x steps {default,1,2,7,30}, and the boundaries of 2012, 2000-03-01, 2100-03-01, 2013-01-01 counted down with steps {-1,-2,-7}; pn.dates.calendar-end: ranges that step outside the years 1-9999 (or stay just inside); pn.malformed: fixed list of malformed strings; cli.parse: command lines drawn "
         "from the documented grammar (1-2 files, a metric, 0-7 distinct data/computation options with documented "
         "values, 0-2 appearance options, random order, 30% with 1-2 --config files); cli.dup: same with a repeated "
         "flag (model correspondence only); cli.bad: one documented rejection per line. An op is non-trivial if the "
@@ -195,13 +196,15 @@ def _civil(n):
     n = int(n)
     try:
         return datetime.date(n // 10000, n // 100 % 100, n % 100)
-    except ValueError:
+    except (ValueError, OverflowError):
         return None
 
 
 def doc_dates(s):
     """documented: YYYYMMDD values; d1:d2 every calendar day, d1:k:d2 every k-th calendar day.
-    Returns a list of ints, None (= must be rejected) or "undefined" (documentation silent)."""
+    Returns a list of ints, None (= must be rejected) or "undefined" (documentation silent; that includes a
+    progression that steps outside the years 1-9999, the only calendar verif knows: an answer or the error
+    message, never a traceback)."""
     out = []
     for part in s.split(","):
         f = part.split(":")
@@ -225,14 +228,20 @@ def doc_dates(s):
             d = d1
             while d >= d2:
                 out.append(int(d.strftime("%Y%m%d")))
-                d += datetime.timedelta(days=st)
+                try:
+                    d += datetime.timedelta(days=st)
+                except OverflowError:
+                    return "undefined"
             continue
         if d1 > d2:
             return "undefined"
         d = d1
         while d <= d2:
             out.append(int(d.strftime("%Y%m%d")))
-            d += datetime.timedelta(days=st)
+            try:
+                d += datetime.timedelta(days=st)
+            except OverflowError:
+                return "undefined"
     return out
 
 
@@ -305,6 +314,15 @@ def gen_pn(tier, rng):
               "20130301:-1:20130230", "20130230:-1:20130101", "20130100:-1:20121230", "20130301:20130230",
               "20130101:2.0:20130105", "-5:-1:-10", "0:5", "20130105:-3:20130101"]:
         yield "pn.dates.edge", "parse_numbers s=%s 1" % s
+    # the date arithmetic leaves datetime's years 1-9999 (one step beyond the last value that is kept, a huge step
+    # in either direction, a first date whose year does not fit a C int) or stays just inside
+    for s in ["99991230:99991231", "99991231:99991231", "99991225:7:99991231", "99991201:99991210", "99991231",
+              "99991201:3:99991229", "99991230:100000105", "100000101:100000102", "1000000000000101:1000000000000102",
+              "20130101:9999999999:20130105", "20130101:3000000:20130105", "20130101:2900000:20130105",
+              "20130101:-9999999999:20130105", "20130105:-9999999999:20130101", "20130105:-735300:20130101",
+              "20130105:-734000:20130101", "00010102:-1:00010101", "00010103:-7:00010101", "00010110:-3:00010105",
+              "00010101:00010103", "00010101:-1:00010101", "20130101,99991230:99991231", "99991231:1:99991231"]:
+        yield "pn.dates.calendar-end", "parse_numbers s=%s 1" % s
     for s in ["20121231:0.25:20130101", "20130101:1.5:20130105", "20130101:2:20130105", "20130105:-0.5:20130101"]:
         yield "pn.dates.sub", "parse_numbers_sub s=%s 1" % s
     for s in MALFORMED:
